@@ -242,12 +242,14 @@ impl ZmodN {
                     carryn = (mn >> 64) as u64;
                 }
             }
-            let (mi, c) = m[i + sz].overflowing_add(carryn);
+            let (mi, mut c) = m[i + sz].overflowing_add(carryn);
             m[i + sz] = mi;
-            if c {
-                assert!(i + sz + 1 < m.len());
-                // FIXME: overflow
-                m[i + sz + 1] += u64::from(c);
+            // Propagate the carry through words equal to 2^64-1.
+            let mut idx = i + sz + 1;
+            while c {
+                assert!(idx < m.len());
+                (m[idx], c) = m[idx].overflowing_add(1);
+                idx += 1;
             }
         }
         let mut m: [u64; MINT_WORDS] = m[sz..sz + MINT_WORDS].try_into().unwrap();
